@@ -141,7 +141,12 @@ def gen_case(rng, idx):
             cls = "PlainPool" if last else "PlainDeco"
         else:
             cls = role + fl.capitalize()
-        elems.append({"cls": cls, "ident": i + 1, "flavour": fl, "form": rng.choice(["tag", "tag", "type"])})
+        el = {"cls": cls, "ident": i + 1, "flavour": fl, "form": rng.choice(["tag", "tag", "type"])}
+        if fl is not None and rng.random() < 0.25:
+            el["idle"] = True           # waits on an awaitable nothing else references
+        elif fl is not None and rng.random() < 0.3:
+            el["churn"] = True          # allocates cyclic garbage: the garbage collector runs while the daemon is up
+        elems.append(el)
     fault = rng.choice([None, None, None, None, "bad_yaml", "unknown_tag", "unknown_section", "missing_pipeline",
                         "ctor_typeerror", "unknown_ext", "missing_file", "py_raises", "service_fail", "service_fail"])
     if kind == "py" and fault in ("bad_yaml", "unknown_tag", "unknown_section", "missing_pipeline"):
@@ -158,6 +163,7 @@ def gen_case(rng, idx):
         e = rng.choice(svc)
         e["fail_after"] = rng.choice([0.0, 0.05, 0.2])
         e["fail_kind"] = rng.choice(["raise", "return"])
+        e.pop("idle", None)
     return case
 
 
@@ -167,6 +173,11 @@ def corpus():
                      {"cls": "DecoAsyncio", "ident": 2, "flavour": "asyncio", "form": "type"},
                      {"cls": "DecoThreading", "ident": 3, "flavour": "threading", "form": "tag"},
                      {"cls": "PoolTrio", "ident": 4, "flavour": "trio", "form": "tag"}]}
+    yield {"idx": 9002, "kind": "yaml", "fault": None, "logging": False, "sigint_after": 0.5,
+           "elems": [{"cls": "CtrlAsyncio", "ident": 1, "flavour": "asyncio", "form": "tag", "idle": True},
+                     {"cls": "DecoAsyncio", "ident": 2, "flavour": "asyncio", "form": "tag", "churn": True},
+                     {"cls": "DecoTrio", "ident": 3, "flavour": "trio", "form": "type", "idle": True},
+                     {"cls": "PoolThreading", "ident": 4, "flavour": "threading", "form": "tag", "churn": True}]}
     yield {"idx": 9001, "kind": "py", "fault": None, "logging": False, "sigint_after": 0.0,
            "elems": [{"cls": "CtrlAsyncio", "ident": 1, "flavour": "asyncio", "form": "tag"},
                      {"cls": "PoolThreading", "ident": 2, "flavour": "threading", "form": "tag"}]}
@@ -201,6 +212,9 @@ def write_config(case, d):
         chain = []
         for e in elems:
             kw = "ident=%d" % e["ident"]
+            for flag in ("idle", "churn"):
+                if e.get(flag):
+                    kw += ", %s=True" % flag
             if "fail_after" in e:
                 kw += ", fail_after=%r, fail_kind=%r" % (e["fail_after"], e["fail_kind"])
             if fault == "ctor_typeerror" and e is elems[0]:
@@ -222,6 +236,9 @@ def write_config(case, d):
             lines.append("pipeline:")
             for e in elems:
                 args = {"ident": e["ident"]}
+                for flag in ("idle", "churn"):
+                    if e.get(flag):
+                        args[flag] = True
                 if "fail_after" in e:
                     args["fail_after"] = e["fail_after"]
                     args["fail_kind"] = e["fail_kind"]
